@@ -26,16 +26,19 @@ package support
 //@   send foundEdges [sent_iff_reference_branch_found_in_bootstrap_tree] ok && msg == rangeindex + 1
 //@   send foundEdges [message_is_an_index_of_a_reference_branch] 0 <= msg && msg < len(edges)
 //@   loop 1
+//@     complete [all_iterations_no_early_exit]
 //@     invariant [no_pending_error] treeV.Err == nil && inerr == nil
 //@     invariant [captured_unchanged] boottrees == lold(boottrees) && foundEdges == lold(foundEdges) && reftree == lold(reftree) && sup == lold(sup) && edges == lold(edges)
 //@     invariant [reference_branches_intact] forall k int :: 0 <= k && k < len(edges) ==> edges[k] != nil
 //@     invariant [result_channel_open] !closed(foundEdges)
 //@     invariant [locks_balanced] ghost(lock_Lock) - ghost(lock_Unlock) == lold(ghost(lock_Lock) - ghost(lock_Unlock))
 //@   loop 2
+//@     complete [all_iterations_no_early_exit]
 //@     invariant [locks_balanced] ghost(lock_Lock) - ghost(lock_Unlock) == lold(ghost(lock_Lock) - ghost(lock_Unlock))
 //@     invariant [bootstrap_branches_intact] forall k int :: 0 <= k && k < len(edges2) ==> edges2[k] != nil && edges2[k].right != nil
 //@     invariant [reference_branches_intact] forall k int :: 0 <= k && k < len(edges) ==> edges[k] != nil
 //@   loop 3
+//@     complete [all_iterations_no_early_exit]
 //@     invariant [locks_balanced] ghost(lock_Lock) - ghost(lock_Unlock) == lold(ghost(lock_Lock) - ghost(lock_Unlock))
 //@     invariant [reference_branches_intact] forall k int :: 0 <= k && k < len(edges) ==> edges[k] != nil
 
@@ -51,14 +54,18 @@ package support
 //@   requires reftree != nil
 //@   recv foundEdges [message_is_an_index_of_a_reference_branch] 0 <= msg && msg < len(edges)
 //@   loop 1
+//@     complete [all_iterations_no_early_exit]
 //@     invariant [reference_branches] forall k int :: 0 <= k && k < len(edges) ==> edges[k] != nil && edges[k].right != nil && edges[k].left != nil
 //@   loop 2
+//@     complete [all_iterations_no_early_exit]
 //@     invariant [reference_branches] forall k int :: 0 <= k && k < len(edges) ==> edges[k] != nil && edges[k].right != nil && edges[k].left != nil
 //@     invariant [tally_size] len(foundBoot) == len(edges) && foundEdges != nil
 //@   loop 3
+//@     complete [all_iterations_no_early_exit]
 //@     invariant [reference_branches] forall k int :: 0 <= k && k < len(edges) ==> edges[k] != nil && edges[k].right != nil && edges[k].left != nil
 //@     invariant [tally_size] len(foundBoot) == len(edges) && foundEdges != nil
 //@   loop 4
+//@     complete [all_iterations_no_early_exit]
 //@     invariant [reference_branches] forall k int :: 0 <= k && k < len(edges) ==> edges[k] != nil && edges[k].right != nil && edges[k].left != nil
 //@     invariant [tally_size] len(foundBoot) == len(edges)
 //@     step [inner_branch_support_is_count_over_trees] len(edges[rangeindex + 1].right.neigh) != 1 ==> edges[rangeindex + 1].support == real(foundBoot[rangeindex + 1]) / real(ntrees)
@@ -78,6 +85,7 @@ package support
 //@   call (*sync.WaitGroup).Add [one_worker_per_requested_thread_is_announced] a1 == cpu
 //@   call (*sync.WaitGroup).Wait [as_many_workers_were_started_as_were_announced] atexit(5, c) == cpu
 //@   loop 5
+//@     complete [all_iterations_no_early_exit]
 //@     invariant [at_most_the_announced_number_started] 0 <= c && (cpu >= 0 ==> c <= cpu)
 
 //@ define topodepth(e *tree.Edge) int = e.ntaxleft <= e.ntaxright ? e.ntaxleft : e.ntaxright
@@ -91,6 +99,7 @@ package support
 //@   ensures [support_is_one_minus_mean_distance_over_depth_minus_one] forall k int :: 0 <= k && k < len(edges) && old(edges[k].support) != -1 ==> edges[k].support == 1 - (old(edges[k].support) / real(nboot)) / real(topodepth(edges[k]) - 1)
 //@   ensures [absent_support_stays_absent] forall k int :: 0 <= k && k < len(edges) && old(edges[k].support) == -1 ==> edges[k].support == -1
 //@   loop 1
+//@     complete [all_iterations_no_early_exit]
 //@     assigns tree.Edge.support
 //@     invariant [done_prefix] forall k int :: 0 <= k && k <= rangeindex && old(edges[k].support) != -1 ==> edges[k].support == 1 - (old(edges[k].support) / real(nboot)) / real(topodepth(edges[k]) - 1)
 //@     invariant [done_prefix_absent] forall k int :: 0 <= k && k <= rangeindex && old(edges[k].support) == -1 ==> edges[k].support == -1
@@ -129,6 +138,7 @@ package support
 //@   call support.MinTransferDist [a_branch_absent_from_the_bootstrap_tree_gets_its_minimum_transfer_distance_to_that_tree] !ok && a0 == e && a1 == reftree && a2 == boot.Tree && a3 == len(tips) && a4 == bootedges && a5 == !(computeavgtaxa || computeperbranchtaxa)
 //@   call (*tree.Edge).IncrementSupport [a_branch_found_adds_zero_an_absent_one_adds_its_transfer_distance] a0 == e && ((ok && a1 == 0.0) || (!ok && a1 == real(dist)))
 //@   loop 1
+//@     complete [all_iterations_no_early_exit]
 //@     invariant [locks_balanced] ghost(lock_Lock) - ghost(lock_Unlock) == lold(ghost(lock_Lock) - ghost(lock_Unlock))
 
 // feeder of TBE: sends every reference branch once, then closes the channel
@@ -138,6 +148,7 @@ package support
 //@   ensures [closed_exactly_once] closed(edgechan)
 //@   send edgechan [message_is_a_reference_branch] msg == edges[rangeindex + 1]
 //@   loop 1
+//@     complete [all_iterations_no_early_exit]
 //@     invariant [channel_open] edgechan == lold(edgechan) && !closed(edgechan)
 
 // minTransferDistRecur (property C10): the recorded minimum never increases; once the early stop is raised (a
@@ -150,4 +161,5 @@ package support
 //@   ensures [stop_is_raised_only_at_distance_one_in_early_stop_mode_and_nothing_is_recorded_after] *stop && !old(*stop) ==> *dist == 1 && absent
 //@   call support.minTransferDistRecur [descends_to_every_other_neighbour_through_its_own_branch_with_the_same_accumulators] a2 == n && a3 == cur && a4 == nextEdge && n != prev && a5 == refEdge && a6 == p && a7 == ones && a8 == dist && a9 == minedges && a10 == absent && a11 == stop && a1 == ntips
 //@   loop 1
+//@     complete [all_iterations_no_early_exit]
 //@     invariant [not_stopped_while_scanning_the_children] !*stop && *dist <= old(*dist) && cur != nil && dist != nil && stop != nil && minedges != nil && refEdge != nil && ones != nil
